@@ -51,14 +51,15 @@ RULE = (
 BOUNDS = {
     "quick": {
         "k": [1, 2, 3], "samples": [1, 2, 3], "unobserved_plates_per_sample": [0, 4],
-        "pre_observed_plates_per_sample": [0, 1], "layouts": ["interleaved"],
+        "pre_observed_plates_per_sample": [0, 1], "pre_observed_plates_per_screen": [0, 1], "layouts": ["interleaved"],
         "multi_batch_variant": {"k": [1, 2, 3], "samples": [1, 2, 3], "unobserved_plates_per_sample": [0, 3],
                                 "max_reference_states_per_configuration": 2500},
         "depth": "fixpoint (no depth bound)", "max_states_per_configuration": 200000,
     },
     "thorough": {
         "k": [1, 2, 3, 4], "samples": [1, 2, 3], "unobserved_plates_per_sample": [0, 5],
-        "pre_observed_plates_per_sample": [0, 1], "layouts": ["interleaved", "blocked"],
+        "pre_observed_plates_per_sample": [0, 1], "pre_observed_plates_per_screen": [0, 3],
+        "layouts": ["interleaved", "blocked"],
         "multi_batch_variant": {"k": [1, 2, 3, 4], "samples": [1, 2, 3], "unobserved_plates_per_sample": [0, 4],
                                 "max_reference_states_per_configuration": 30000},
         "depth": "fixpoint (no depth bound)", "max_states_per_configuration": 200000,
@@ -159,6 +160,8 @@ def configurations(tier):
     for layout in b["layouts"]:
         for samples in _tuples(_sample_opts(b["unobserved_plates_per_sample"][1], b["pre_observed_plates_per_sample"][1]),
                                b["samples"][-1]):
+            if sum(o for _, o in samples) > b["pre_observed_plates_per_screen"][1]:
+                continue
             for k in b["k"]:
                 out.append({"variant": "prospective", "k": k, "samples": samples, "layout": layout})
     mb = b["multi_batch_variant"]
@@ -516,7 +519,7 @@ def run_item(item, col, tier):
 
 
 def replay(case, col):
-    """Re-execute one recorded history step by step (no BFS) and judge every state on it."""
+    """Re-execute one recorded history step by step through the real transitions (no BFS) and judge its end state."""
     if "multi" in case:
         run_multi(case["multi"], col)
         return
